@@ -48,6 +48,11 @@ def obligations(tier, seed):
     for s in PLAIN: obs.append(dict(name='plain/' + s, kind='plain', script=s, args=['0x01'] if s.startswith('OP_IF') else []))
     # long pushes: every push form and the longest listing lines (a 520-byte push is a 1046-character line)
     for n in (75, 76, 255, 256, 508, 509, 520): obs.append(dict(name='plain/push-%d-bytes' % n, kind='plain', script='0x' + 'ab' * n + ' OP_SIZE OP_NIP', args=[]))
+    # every non-push opcode byte once, inside a branch that is not executed, given as a raw hex script: its listing line must name THAT operation
+    # (seed C12-7 rendered 0x50 as "0"); conditionals are left out (they change the structure)
+    for o in range(0x4f, 0x100):
+        if 0x63 <= o <= 0x68: continue
+        obs.append(dict(name='plain/skipped-opcode-%02x' % o, kind='plainhex', hex='0063%02x6851' % o))
     for f in FIXTURES: obs.append(dict(name='fixture/' + f, kind='fixture', fx=f, timeout_s=900, cost=10))
     # flag modifications change what is executed (P2SH off: no redeem-script section) and so what the listing must show (seed C12-4)
     # p2sh-empty-redeem: the scriptSig ends with OP_0 after an earlier data push, the redeem script is the empty script (seed C12-5 listed the earlier push as the redeem script)
@@ -94,6 +99,7 @@ def session_argv(ob, V=None):
             else: chars += list(t.encode())
         chars.append(ord(']'))
         return [list(b'btcdeb'), chars] + [list(a.encode()) for a in ob['args']], assume, syms
+    if ob['kind'] == 'plainhex': return [list(b'btcdeb'), list(ob['hex'].encode())], assume, syms
     if ob['kind'] == 'tapsession':
         import C03, random
         import hashlib
